@@ -30,6 +30,8 @@ func vhIndexLess(a, b vhRow, desc bool) bool {
 // n rows; the index order is a permutation chosen by the harness (order[i] =
 // row number of the i-th index entry) and ASSUMED to be the sorted order, so the
 // solver ranges over all value assignments consistent with it.
+var vhTableSQL = "CREATE TABLE t (a, b)"
+
 func vhBuildIndexed(n int, split bool, desc bool, perm []int) *vhIdxDB {
 	d := &vhIdxDB{f: sdb.VerifNewFile(512), desc: desc, order: perm}
 	f := d.f
@@ -39,7 +41,7 @@ func vhBuildIndexed(n int, split bool, desc bool, perm []int) *vhIdxDB {
 		sqlIdx = "CREATE INDEX i ON t (b DESC)"
 	}
 	f.Master([]sdb.VerifMasterRow{
-		{Typ: "table", Name: "t", Tbl: "t", Root: troot, SQL: "CREATE TABLE t (a, b)"},
+		{Typ: "table", Name: "t", Tbl: "t", Root: troot, SQL: vhTableSQL},
 		{Typ: "index", Name: "i", Tbl: "t", Root: iroot, SQL: sqlIdx},
 	})
 	leaves := 1
